@@ -14,7 +14,7 @@ Require Import GV.Base.Res GV.Base.Byt GV.Base.Ints GV.Model.Leb GV.Model.Prim
                GV.Spec.LebSpec GV.Spec.FormSpec GV.Model.Attr GV.Spec.Forest GV.Model.AbbrevRd
                GV.Model.DieRd GV.Proofs.AttrProofs GV.Proofs.AbbrevRdProofs GV.Proofs.DieRdProofs GV.Proofs.NavProofs
                GV.Spec.ForestSel GV.Model.TreeWalk GV.Proofs.TreeWalkProofs GV.Proofs.CursorWalkProofs
-               GV.Proofs.SibBadProofs.
+               GV.Proofs.SibBadProofs GV.Proofs.SibOvProofs.
 Import ListNotations.
 Local Open Scope N_scope.
 
@@ -484,6 +484,55 @@ Proof.
   split; [right; vm_compute; right; left; reflexivity|].
   split; [right; vm_compute; right; right; reflexivity|].
   split; [right; vm_compute; exact I|].
+  vm_compute. reflexivity.
+Qed.
+
+(* (6e) WHOLE traversals of units with wrong DW_AT_sibling values — PARTIAL.
+        SibOvProofs.enc_forest_ov = the encoder enc_forest with a per-entry override `ov : offset -> option N`
+        of the value written into the entry's DW_AT_sibling slots (same form and width: DW_FORM_ref1/2/4/8;
+        sibs_fit_ov: the value fits the width), so no length and no offset changes (first conjunct; with
+        ov = none it is enc_forest: SibOvProofs.enc_tree_ov_none). The full depth-first cursor walk of
+        dfs_is_preorder (next_dfs loop) reports preorder_ov = preorder f with the overridden value shown in
+        those slots — every offset, depth, tag, children flag and every other attribute as in preorder f.
+        next_dfs never consults the attribute, so this half holds for EVERY override value, in particular for
+        all of the ignored class (backward, self, inside the entry, beyond the unit end).
+        MISSING for the full statement bad_sibling_full_walk: the same for the walks that DO consult the
+        attribute — the next_sibling walk (siblings_all / cwalk_list) and the tree walk (walk_tree) — for
+        overrides of the ignored class; they need NavProofs.skip_tree / walk_list redone over evs_ov with
+        bad_sibling_ignored in place of sibling_jump_root. *)
+Theorem bad_sibling_full_walk_partial : forall dbg bigend types uoff h codes (ov : N -> option N) f pad tbl,
+  let e := mkEnc (uh_version h) (uh_fmt64 h) (uh_asize h) bigend in
+  let body := SibOvProofs.enc_forest_ov codes ov bigend (header_len h) f pad in
+  let hdr := mkUnit e (unit_length_of bigend h (nlen body)) (uh_type h) (uh_abbrev_off h) types uoff body in
+  addr_size_ok e -> header_len h + nlen body < two63 ->
+  Forall (fun t => tbl_get tbl (t_code codes t) = Some (t_abbrev codes t)) (forest_nodes f) ->
+  forest_ok codes e f -> SibOvProofs.sibs_fit_ov codes ov (header_len h) f ->
+  nlen body = nlen (enc_forest codes bigend (header_len h) f pad) /\
+  exists c, entries dbg hdr = Ok c /\
+            dfs_all (cursor_fuel c) dbg e tbl c = Ok (SibOvProofs.preorder_ov codes ov (header_len h) 0 f, None).
+Proof.
+  intros dbg bigend types uoff h codes ov f pad tbl e body hdr He Hlen Hc Hok Hfit. split.
+  - exact (SibOvProofs.enc_forest_ov_len codes ov bigend (header_len h) f pad).
+  - exact (SibOvProofs.dfs_ov dbg bigend types uoff h codes ov f pad tbl He Hlen Hc Hok Hfit).
+Qed.
+
+(* ex_root (offset 11) carries a DW_FORM_ref1 DW_AT_sibling; overridden by 11 (the entry itself) only the
+   byte of that slot changes (0x1a -> 0x0b) and the reported entry shows the overridden value *)
+Example bad_sibling_full_walk_ex :
+  let ov := fun o => if o =? 11 then Some 11 else None in
+  SibOvProofs.enc_forest_ov ex_codes ov false (header_len ex_header) ex_forest 1 =
+    [xe8;x07; x0b; x2a;  x03; x2a;  x85;x80;x80;x80;x10; x00;  x03; x2a;  x00;  x00]%byte /\
+  SibOvProofs.sibs_fit_ov ex_codes ov (header_len ex_header) ex_forest /\
+  map d_offset (SibOvProofs.preorder_ov ex_codes ov (header_len ex_header) 0 ex_forest) = [11; 15; 17; 23] /\
+  SibOvProofs.preorder_ov ex_codes (fun _ => None) (header_len ex_header) 0 ex_forest =
+    preorder ex_codes (header_len ex_header) 0 ex_forest.
+Proof.
+  split; [vm_compute; reflexivity|]. split; [|split; vm_compute; reflexivity].
+  unfold SibOvProofs.sibs_fit_ov.
+  replace (on_list (placed ex_codes) (tree_size ex_codes) (header_len ex_header) ex_forest)
+    with [(11, ex_root); (15, ex_k1); (17, ex_k2); (23, ex_k1)] by (vm_compute; reflexivity).
+  repeat (apply Forall_cons); try apply Forall_nil; unfold SibOvProofs.fits_ov; cbn [fst snd t_items ex_root ex_k1 ex_k2];
+    repeat (apply Forall_cons); try apply Forall_nil; try exact I.
   vm_compute. reflexivity.
 Qed.
 
